@@ -20,6 +20,58 @@ CHECKS = {
                 note="trusted: the library's own a_mu values in the composition clauses (their correctness is C03/C15)", ref="5 C18"),
 }
 
+
+CHECKS.update({
+    "C03": dict(cat="exploration", tech="runtime monitoring: reference-model monitor (own mass matrices, long-double Jacobi, 200-digit loop functions) over random MSSM/THDM models, ASan+UBSan build",
+                text="For every generated model without reported problem the library's one-loop chi0, chi+- and total (resummed and not, also after convert_to_onshell) and the THDM flavour-summed one-loop result are compared, on the sum of absolute terms, with an evaluation that shares the published formulas but none of the library's diagonalisation, phase conventions or loop-function code.",
+                note="trusted: Eqs.(2.11a,b) of 1311.1775 / Eq.(27)-type sum of 1607.06292 as typed in the harness; mpref loop functions; one listed finding (F2C below 10 eps for Higgs masses above 10.9 TeV)", ref="5 C03"),
+    "C04": dict(cat="exploration", tech="runtime monitoring: reference-model monitor (independent tree-level mass matrices of all sectors) plus invariant monitors (unitarity, ordering, Goldstone position, tree-level identities, tachyon flags, generation exchange), ASan+UBSan build",
+                text="Random real Lagrangian parameter sets (half steered into tachyons) are set through the public setters; after calculate_DRbar_masses every reported mass/mixing pair is checked against mass matrices written independently in the harness, and the tachyon list against the sign of the reference's smallest eigenvalue.",
+                note="trusted: the harness's tree-level MSSM mass matrices and EWSB elimination; tachyon clause inconclusive for |lambda_min| < 1e-9 ||M||", ref="5 C04"),
+    "C05": dict(cat="exploration", tech="runtime monitoring: round-trip monitor over on-shell point -> pole spectrum -> perturbed guesses -> convert_to_onshell, with pole-reproduction and parameter-recovery oracles, ASan+UBSan build",
+                text="Each execution of the conversion on a generated SLHA-type model is judged: no warning => both charginos, the bino-like neutralino, the muon sneutrino and the right-like smuon reproduce their pole masses within the requested precision; on the well-conditioned subset the original parameters and a_mu are recovered.",
+                note="trusted: state identification from the mixing matrices; the known right-smuon miss (Yukawa lag) is listed with a behavioural predicate (contracts under re-conversion)", ref="5 C05"),
+    "C06": dict(cat="exploration", tech="runtime monitoring: metamorphic monitor over pairs (point, jointly sign-flipped point) for ~75 named quantities, ASan+UBSan build",
+                text="Two models are built from the same on-shell point with and without the joint flip of mu, M1, M2, M3 and all A_f; every public a_mu function, approximation, Delta correction, the resummation factor, uncertainties, coupling arrays and all masses must agree to 1e-9 on the scale rule.",
+                note="trusted: the scale rule of DESIGN 4.1 (sum of absolute one-loop terms)", ref="5 C06"),
+    "C07": dict(cat="exploration", tech="runtime monitoring: metamorphic monitor over families of 7 models under a common rescaling k=1..64, with scale-aware residual tests of the 1/k^2 law",
+                text="For each base point the one-loop, fermion/sfermion, photonic, 2L(a) and total two-loop results, the resummation factor and the two-loop uncertainty are observed at k = 1,2,...,64 and tested against the 1/k^2 law up to (MZ/(k M_min))^2 corrections and logarithms (affine in ln k), with constants frozen at >= 10x the worst observed value.",
+                note="trusted: calibrated constants in lib/thresholds.py; the literal band [0.2,0.35] of the quantifier is falsified by correct code at zero crossings and is reported only", ref="5 C07"),
+    "C08": dict(cat="exploration", tech="runtime monitoring: round-trip monitor (mass basis -> getters -> gauge basis -> back) over random THDM inputs incl. degenerate and boundary points, ASan+UBSan build",
+                text="Every accepted mass-basis input must report its inputs back (masses on the natural error scale, sin(beta-alpha) with cos >= 0, tan beta, lambda_6,7, m12^2 bit-exact), SM vector-boson and fermion masses, Goldstone position, CKM moduli and Jarlskog invariant; the gauge-basis rebuild must give the same spectrum; every input of the quantifier's range must be accepted.",
+                note="trusted: conditioning-aware tolerances (eps x scale/(mH^2-mh^2) for the angle); one listed finding (mh = 0 rejected by rounding)", ref="5 C08"),
+    "C09": dict(cat="exploration", tech="runtime monitoring: metamorphic monitor over pairs of equivalent THDM parametrisations and over changes of documented-ignored parameters, ASan+UBSan build",
+                text="Type I/II/X/Y vs aligned with Table-1 zeta_f (running on/off; all a_mu parts, uncertainties, twelve Yukawa getters), aligned(zeta,Delta) vs general(Pi) with running off, and bit-identity under changes of parameters documented as ignored.",
+                note="trusted: term sums re-assembled from getters and fuS..flHp as comparison scale; fermionic two-loop tolerance 1e-5 on that scale (loop-function noise floor, see DESIGN)", ref="5 C09"),
+    "C10": dict(cat="exploration", tech="runtime monitoring: metamorphic monitors - exact cancellation of light-Higgs against SM-Higgs terms at the helper boundary and at model level; boundedness of |a| M^2/(1+ln^2 M) along decoupling families",
+                text="With cos(beta-alpha)=0, running off and m_hSM = mh the one-loop and fermionic two-loop results must not depend on the common Higgs mass (relative to the size of the light-Higgs term); along gauge-basis families with fixed quartics the band-maxima ratio of K = |a| M^2/(1+ln^2(M/MZ)) between [10,31.6] and [1,3.16] TeV must stay below calibrated limits for 1L, fermionic and bosonic 2L.",
+                note="trusted: calibrated limits (lib/thresholds.py); the literal per-step 0.45 criterion is falsified by correct code at zero crossings and is reported only", ref="5 C10"),
+    "C11": dict(cat="exploration", tech="runtime monitoring: path monitor - every contribution, sub-part and sum observed at 23 points along one-parameter paths through coincidence configurations enumerated from the spectrum (THDM) or located by bisection (MSSM); finiteness + 1%-of-chord continuity oracle",
+                text="For each base point all degenerate configurations formed from its masses are enumerated; along each path the values at d = 0, +-1e-13..+-1e-4 must be finite and within 1% of the magnitude (sum of absolute parts for sums) of the chord through d = +-1e-3, or continuous with a kink by the one-sided form; known singular classes carry listed keys.",
+                note="trusted: magnitude of a sum = sum of absolute parts (DESIGN 4.1); uncertainties (functions of |a|) are checked for finiteness only; four listed findings keyed by singular mechanism", ref="5 C11"),
+    "C13": dict(cat="exploration", tech="runtime monitoring: executable reference model of the SLHA reader against the library's filled parameters; metamorphic monitor (layout-preserving rewrites) and rejection monitor on executions of the real gm2calc.x",
+                text="Generated inputs of the three formats and 15-25 layout-preserving rewrites each: the parameters filled by the library's reader must equal those predicted by a sequential last-write-wins model written from README.md; the program's minimal output and exit status must be identical across rewrites; malformed numeric tokens in read blocks and invalid GM2CalcConfig values must give exit 1 with a diagnostic and no physics output, the same tokens in unread blocks no effect.",
+                note="trusted: the reference reader model (lib/slha_model.py); CKM entries at 1e-14; hex floats and '18.0' keys are not generated", ref="5 C13"),
+    "C14": dict(cat="exploration", tech="runtime monitoring with sanitizers: real gm2calc.x under ASan+UBSan+LSan on libFuzzer-generated corpus, structure-aware mutations, hostile command lines and random bytes; valgrind memcheck sample for uninitialised reads; process-level oracle (exit status, signal, time, diagnostics)",
+                text="Every recorded execution must end with exit 0 or 1, without signal or sanitizer/valgrind report, within 30 s; exit 1 needs a diagnostic on stderr or in SPINFO; stdout must not carry diagnostics. The in-process libFuzzer harness is only a generator; verdicts come from the real binary.",
+                note="trusted: ASan/UBSan/LSan/valgrind as memory oracles (red-zone tools miss intra-object overflows); allocation and I/O faults are not injected", ref="5 C14"),
+    "C15": dict(cat="exploration", tech="runtime monitoring: differential monitor CLI vs library API over the exhaustively enumerated 480 GM2CalcConfig combinations per input; string-equality oracle on formatted numbers, whole detailed text, SLHA echo",
+                text="For each valid input the real program is run with all 480 option combinations; minimal, detailed (whole text), NMSSMTools, SPheno and GM2Calc outputs must equal, as strings, what the API values obtained through the library's own reader format to; uncertainty where documented; additivity on API values; SLHA echo of the input.",
+                note="trusted: correctly rounded printf formatting on both sides; harness/api_dump as the 'documented API sequence'; configuration axis exhaustive per input, inputs sampled", ref="5 C15"),
+    "C16": dict(cat="fault_enumeration", tech="runtime monitoring: decision-table monitor over the completely enumerated documented defect list (alone and in pairs) x force-output x {C++ API, C API, real CLI in each format}",
+                text="Every documented untreatable input is injected into effective parameters of valid random points; observed exception class / C error code / exit status / diagnostics / produced result are compared with the table written from the property (refuse without force, warn-and-proceed with force, exit status semantics, finite result when nothing is flagged).",
+                note="trusted: the decision table; five listed findings where force-output cannot override (MW=0, MW=MZ, tan b=inf, undecidable basis, invalid Yukawa type); massless chargino is not reachable through decimal input", ref="5 C16"),
+    "C17": dict(cat="exploration", tech="runtime monitoring with sanitizers: random C-API call histories mirrored on C++ objects (differential monitor), exact-size heap buffers under ASan, exception-escape guards",
+                text="Histories of up to 40 C calls (setters with finite and non-finite values, getters, spectrum calls with error codes, amu/uncertainty functions, string getters with length 0..64, print, free, free(NULL); THDM handles with hostile bases and out-of-range enum values) are replayed on a C++ object; every C result must equal the C++ result bit-for-bit or be NaN / the matching error code where C++ throws; nothing may escape or overflow.",
+                note="trusted: ASan/UBSan; indices are always valid; enum values beyond the C++-representable range are not generated", ref="5 C17"),
+    "C19": dict(cat="exploration", tech="runtime monitoring: state-digest and repetition monitors (single thread), ThreadSanitizer on a threaded harness (2-16 threads, random yields, shared const models) with bit-exact comparison against a sequential run",
+                text="Each calculation function is observed to leave a byte-wise digest of its model unchanged and to return bit-identical values on repetition, on copies and under permuted evaluation orders; under TSan, concurrent construction and evaluation on own and shared const models must produce no race report and exactly the sequential results; distinct completion orders are counted.",
+                note="trusted: TSan happens-before analysis (only on executed code); a writable-static-symbol listing is recorded as a diagnostic", ref="5 C19"),
+    "C20": dict(cat="exploration", tech="runtime monitoring: invariant monitors on the SM layer (CKM unitarity / rejection, electroweak relations) and a long-double reference model of the running masses (own Lambda_QCD solution), stderr monitor for the fallback warning",
+                text="Wolfenstein/angle inputs incl. boundary and out-of-range values, random MW<MZ and alpha, and running top/bottom/tau masses over six decades of scale are observed: unitarity 1e-14 or rejection, defining relations to 1e-15, finiteness/positivity/monotonicity/composition, boundary values against the reference, a warning exactly when Lambda_QCD cannot be bracketed, and exact bypass when running is disabled.",
+                note="trusted: Eqs.(5),(9) of hep-ph/0207126 as typed in the harness; one listed finding (m_b running above the Landau pole)", ref="5 C20"),
+})
+
 PENDING = {}
 
 
